@@ -58,6 +58,8 @@ class Cache:
 
     def _read(self, name, args, multi):
         self.log.append((self.idx, name, args, {}))
+        if self.hit == "raises":
+            raise ConnectionResetError("cache %d is unreachable (scripted)" % self.idx)
         if not self.hit:
             return {} if multi else None
         if self.hit == "falsy" and not multi:
@@ -84,6 +86,8 @@ class Cache:
         if name in WRITES or name in ("close",):
             def f(*a, **k):
                 self.log.append((self.idx, name, a, k))
+                if self.hit == "raises":
+                    raise ConnectionResetError("cache %d is unreachable (scripted)" % self.idx)
                 return True
             return f
         raise AttributeError(name)
@@ -186,12 +190,20 @@ def run_session(res, fallback, n, seed):
     caches = [Cache(i, False, log) for i in range(n)]
     fc = fallback.FallbackClient(list(caches))
     steps = []
+    session_writes = {"set": (("k1", "v"), {}), "add": (("k1", "v"), {}), "delete": (("k1",), {}), "incr": (("k1", 1), {}),
+                      "touch": (("k1",), {}), "replace": (("k1", "v"), {}), "flush_all": ((), {})}
+    raised_before = False
     for step in range(12):
         hits = tuple(rng.choice((False, True, "falsy")) for _ in range(n))
+        if rng.random() < 0.15:
+            # one cache is unreachable during this step (its client raises): what this step does is not judged, the
+            # steps after it are - the configured order must be intact again once the cache answers
+            j = rng.randrange(n)
+            hits = hits[:j] + ("raises",) + hits[j + 1:]
         for c, h in zip(caches, hits):
             c.hit = h
             c.answers = {}
-        op = rng.choice(READS + list(WRITES)[:4])
+        op = rng.choice(READS + list(session_writes))
         steps.append((hits, op))
         case = ("session", n, seed, step)
         del log[:]
@@ -200,11 +212,22 @@ def run_session(res, fallback, n, seed):
                 arg = ["k1", "k2"] if op.endswith("many") else "k1"
                 r = getattr(fc, op)(arg)
             else:
-                args, kwargs, want = WRITES[op][0]
+                args, kwargs = session_writes[op]
                 getattr(fc, op)(*args, **kwargs)
+        except ConnectionResetError:
+            if "raises" in hits:
+                res.count("session_steps_with_an_unreachable_cache")
+                raised_before = True
+                continue
+            res.violation("session:raises:" + op, "step %d %s raised although every cache answers; steps %r" % (step, op, steps), case)
+            return
         except Exception as e:
             res.violation("session:raises:" + op, "step %d %s raised %r after %r" % (step, op, e, steps), case)
             return
+        if "raises" in hits:
+            res.count("session_steps_with_an_unreachable_cache")
+            raised_before = True
+            continue
         res.count("cache_calls_logged", len(log))
         res.count("session_steps")
         consulted = [e[0] for e in log]
